@@ -238,8 +238,30 @@ pub enum WinKind {
     Tx { m: i64, after: Option<i64> },
 }
 
+/// further stateless / keyed operators of the algebra, each with a one-line sequential meaning
+#[derive(Clone, Debug, Serialize, Deserialize, PartialEq, Eq)]
+pub enum ExtraOp {
+    /// filter_map(|e| p(e).then(|| f(e)))
+    FilterMap(PredFn, MapFn),
+    /// map(|e| f(e) as Vec).flatten()
+    Flatten(FlatFn),
+    /// rich_flat_map with a stateless closure
+    RichFlatMap(FlatFn),
+    /// rich_filter_map with a stateless closure
+    RichFilterMap(PredFn),
+    /// map_memo_by(|e| g(key), |e| key): one output per input, a function of the key only
+    MemoKey,
+    /// map to a key-only element, then unique_assoc(): one element per distinct key
+    UniqueKeys,
+    /// inspect (no effect on the stream)
+    Inspect,
+    /// group_by(key).filter(p).flat_map(f).rich_filter_map(always).inspect().drop_key()
+    KeyedChain(PredFn, FlatFn),
+}
+
 #[derive(Clone, Debug, Serialize, Deserialize, PartialEq, Eq)]
 pub enum UnOp {
+    Extra(ExtraOp),
     Map(MapFn),
     Filter(PredFn),
     FlatMap(FlatFn),
